@@ -3,6 +3,7 @@ Helper lemmas (C07): the bimorphism laws of the GHT join bimorphisms, up to the 
 and structurally (the crate's `==` on tries).
 -/
 import HvGht.Lemmas.Compare
+import HvGht.Lemmas.More
 
 set_option linter.unusedSimpArgs false
 set_option linter.unusedVariables false
@@ -73,135 +74,40 @@ theorem aux_cart_rows_right (sk : Kind) (no na nb da db : Nat) (a : Ght na) (b b
     · exact ⟨ra, hra, rb, (aux_mem_rows_merge _ _ _ _ _).mpr (Or.inl hrb), e⟩
     · exact ⟨ra, hra, rb, (aux_mem_rows_merge _ _ _ _ _).mpr (Or.inr hrb), e⟩
 
-/-! ### structurally -/
+/-! ### structurally: since the F7 fix `==` on well-formed tries is equality of the sets of rows -/
 
 theorem aux_stCollect_nodup (xs : List Row) : (stCollect .set xs).Nodup :=
   aux_stExtend_nodup _ _ List.nodup_nil
 
-theorem aux_geq_refl (n : Nat) (t : Ght n) : geq n t t = true := by
-  induction n with
-  | zero => simp [geq, Leaf.eq, hsEq]
-  | succ n ih =>
-    simp only [geq]
-    rw [aux_innerEq_true]
-    refine ⟨rfl, ?_⟩
-    intro k hk
-    obtain ⟨c, hc⟩ := Option.isSome_iff_exists.mp (aux_lookup_isSome.mpr hk)
-    exact ⟨c, c, hc, hc, ih c⟩
-
-/-- `==` of two inner nodes with distinct keys, key by key -/
-theorem aux_innerEq_of_lookup {α : Type} (ceq : α → α → Bool) (a b : List (Key × α))
-    (nda : (keysOf a).Nodup) (ndb : (keysOf b).Nodup)
-    (h : ∀ k, match a.lookup k, b.lookup k with
-      | some x, some y => ceq x y = true
-      | none, none => True
-      | _, _ => False) :
-    innerEq ceq a b = true := by
-  rw [aux_innerEq_true]
-  have keys : ∀ k, k ∈ keysOf a ↔ k ∈ keysOf b := by
-    intro k
-    rw [← aux_lookup_isSome, ← aux_lookup_isSome]
-    have := h k
-    cases ha : a.lookup k <;> cases hb : b.lookup k <;> simp [ha, hb] at this ⊢
-  have pm : (keysOf a).Perm (keysOf b) := (List.perm_ext_iff_of_nodup nda ndb).mpr keys
-  refine ⟨by simpa [keysOf] using pm.length_eq, ?_⟩
-  intro k hk
-  have := h k
-  obtain ⟨x, hx⟩ := Option.isSome_iff_exists.mp (aux_lookup_isSome.mpr hk)
-  cases hb : b.lookup k with
-  | none => simp [hx, hb] at this
-  | some y => exact ⟨y, x, rfl, hx, by simpa [hx, hb] using this⟩
-
-theorem aux_wf_deepJoin_keys (sk : Kind) (k n : Nat) (a b : Ght (n + 1)) :
-    deepJoin sk k (n + 1) a b = Ght.ofKids (keyedJoin (deepJoin sk k n) a.kids b.kids) := rfl
+theorem aux_grows_merge_len (n d : Nat) (a a' : Ght n)
+    (la : ∀ r ∈ grows n a, d + n ≤ r.length) (la' : ∀ r ∈ grows n a', d + n ≤ r.length) :
+    ∀ r ∈ grows n (gmerge .set n a a').1, d + n ≤ r.length := by
+  intro r hr
+  rcases (aux_mem_rows_merge _ _ _ _ _).mp hr with h | h
+  · exact la r h
+  · exact la' r h
 
 /-- structural left law of the deep join: the crate's `==` holds between the two sides -/
 theorem aux_deepJoin_struct_left (k n d : Nat) (a a' b : Ght n)
-    (ha : Wf .set n d a) (ha' : Wf .set n d a') (hb : Wf .set n d b) :
+    (ha : Wf .set n d a) (ha' : Wf .set n d a') (hb : Wf .set n d b)
+    (la : ∀ r ∈ grows n a, d + n ≤ r.length) (la' : ∀ r ∈ grows n a', d + n ≤ r.length) :
     geq n (deepJoin .set k n (gmerge .set n a a').1 b)
       (gmerge .set n (deepJoin .set k n a b) (deepJoin .set k n a' b)).1 = true := by
-  induction n generalizing d with
-  | zero =>
-    simp only [geq, deepJoin, valProduct, gmerge, Leaf.mergeNode, Leaf.eq, Leaf.fromIter, beq_self_eq_true,
-      Bool.and_true]
-    rw [aux_hsEq_iff _ _ (aux_stCollect_nodup _)
-      (aux_stExtend_nodup _ _ (aux_stCollect_nodup _))]
-    intro x
-    simp only [aux_mem_stCollect, aux_stExtend_mem, aux_mem_valRows, grows, Ght.toLeaf]
-    constructor
-    · rintro ⟨ra, hra, rb, hrb, e⟩
-      rcases hra with h | h
-      · exact Or.inl ⟨ra, h, rb, hrb, e⟩
-      · exact Or.inr ⟨ra, h, rb, hrb, e⟩
-    · rintro (⟨ra, hra, rb, hrb, e⟩ | ⟨ra, hra, rb, hrb, e⟩)
-      · exact ⟨ra, Or.inl hra, rb, hrb, e⟩
-      · exact ⟨ra, Or.inr hra, rb, hrb, e⟩
-  | succ n ih =>
-    simp only [geq, deepJoin, gmerge, aux_innerMerge_eq]
-    have ndm := aux_mergeLoop_nodup (gmerge .set n) a'.kids a.kids false ha.1
-    apply aux_innerEq_of_lookup _ _ _ (aux_keyedJoin_nodup _ _ _ hb.1)
-      (aux_mergeLoop_nodup _ _ _ false (aux_keyedJoin_nodup _ _ _ hb.1))
-    intro key
-    rw [aux_keyedJoin_lookup _ _ _ hb.1, aux_mergeLoop_lookup _ _ ha'.1,
-      aux_mergeLoop_lookup _ _ (aux_keyedJoin_nodup _ _ _ hb.1),
-      aux_keyedJoin_lookup _ _ _ hb.1, aux_keyedJoin_lookup _ _ _ hb.1]
-    cases hy : b.kids.lookup key with
-    | none => cases a.kids.lookup key <;> cases a'.kids.lookup key <;> simp [mergedVal]
-    | some y =>
-      cases hx : a.kids.lookup key with
-      | none =>
-        cases hx' : a'.kids.lookup key with
-        | none => simp
-        | some x' => simp [mergedVal, aux_geq_refl]
-      | some x =>
-        cases hx' : a'.kids.lookup key with
-        | none => simp [mergedVal, aux_geq_refl]
-        | some x' =>
-          simp only [mergedVal]
-          exact ih (d + 1) x x' y (aux_wf_child ha hx).1 (aux_wf_child ha' hx').1 (aux_wf_child hb hy).1
+  have hm := aux_wf_merge .set n d a a' ha ha'
+  rw [aux_geq_iff n d _ _
+    (aux_wf_deepJoin k n d _ b hm hb (aux_grows_merge_len n d a a' la la'))
+    (aux_wf_merge .set n d _ _ (aux_wf_deepJoin k n d a b ha hb la) (aux_wf_deepJoin k n d a' b ha' hb la'))]
+  exact fun x => aux_deepJoin_rows_left .set k n d a a' b ha ha' hb x
 
 theorem aux_deepJoin_struct_right (k n d : Nat) (a b b' : Ght n)
-    (ha : Wf .set n d a) (hb : Wf .set n d b) (hb' : Wf .set n d b') :
+    (ha : Wf .set n d a) (hb : Wf .set n d b) (hb' : Wf .set n d b')
+    (la : ∀ r ∈ grows n a, d + n ≤ r.length) :
     geq n (deepJoin .set k n a (gmerge .set n b b').1)
       (gmerge .set n (deepJoin .set k n a b) (deepJoin .set k n a b')).1 = true := by
-  induction n generalizing d with
-  | zero =>
-    simp only [geq, deepJoin, valProduct, gmerge, Leaf.mergeNode, Leaf.eq, Leaf.fromIter, beq_self_eq_true,
-      Bool.and_true]
-    rw [aux_hsEq_iff _ _ (aux_stCollect_nodup _)
-      (aux_stExtend_nodup _ _ (aux_stCollect_nodup _))]
-    intro x
-    simp only [aux_mem_stCollect, aux_stExtend_mem, aux_mem_valRows, grows, Ght.toLeaf]
-    constructor
-    · rintro ⟨ra, hra, rb, hrb, e⟩
-      rcases hrb with h | h
-      · exact Or.inl ⟨ra, hra, rb, h, e⟩
-      · exact Or.inr ⟨ra, hra, rb, h, e⟩
-    · rintro (⟨ra, hra, rb, hrb, e⟩ | ⟨ra, hra, rb, hrb, e⟩)
-      · exact ⟨ra, hra, rb, Or.inl hrb, e⟩
-      · exact ⟨ra, hra, rb, Or.inr hrb, e⟩
-  | succ n ih =>
-    simp only [geq, deepJoin, gmerge, aux_innerMerge_eq]
-    have ndm := aux_mergeLoop_nodup (gmerge .set n) b'.kids b.kids false hb.1
-    apply aux_innerEq_of_lookup _ _ _ (aux_keyedJoin_nodup _ _ _ ndm)
-      (aux_mergeLoop_nodup _ _ _ false (aux_keyedJoin_nodup _ _ _ hb.1))
-    intro key
-    rw [aux_keyedJoin_lookup _ _ _ ndm, aux_mergeLoop_lookup _ _ hb'.1,
-      aux_mergeLoop_lookup _ _ (aux_keyedJoin_nodup _ _ _ hb'.1),
-      aux_keyedJoin_lookup _ _ _ hb.1, aux_keyedJoin_lookup _ _ _ hb'.1]
-    cases hx : a.kids.lookup key with
-    | none => cases b.kids.lookup key <;> cases b'.kids.lookup key <;> simp [mergedVal]
-    | some x =>
-      cases hy : b.kids.lookup key with
-      | none =>
-        cases hy' : b'.kids.lookup key with
-        | none => simp
-        | some y' => simp [mergedVal, aux_geq_refl]
-      | some y =>
-        cases hy' : b'.kids.lookup key with
-        | none => simp [mergedVal, aux_geq_refl]
-        | some y' =>
-          simp only [mergedVal]
-          exact ih (d + 1) x y y' (aux_wf_child ha hx).1 (aux_wf_child hb hy).1 (aux_wf_child hb' hy').1
+  have hm := aux_wf_merge .set n d b b' hb hb'
+  rw [aux_geq_iff n d _ _
+    (aux_wf_deepJoin k n d a _ ha hm la)
+    (aux_wf_merge .set n d _ _ (aux_wf_deepJoin k n d a b ha hb la) (aux_wf_deepJoin k n d a b' ha hb' la))]
+  exact fun x => aux_deepJoin_rows_right .set k n d a b b' ha hb hb' x
 
 end HvGht
